@@ -343,7 +343,7 @@ def run(acc, tier):
     else:
         engine.pmap(acc, shard_mesh_exhaustive, extra=(2, 6))
         engine.pmap(acc, shard_biv_exhaustive, extra=(3, 6))
-        engine.pmap(acc, shard_generated, extra=(4000, 2000, 1500))
+        engine.pmap(acc, shard_generated, extra=(20000, 10000, 8000))
         sub = "all shadings of all patterns of length <= 2 x all permutations of length <= 6; all adjacency sets, patterns <= 3, permutations <= 6"
-        engine.fuzz(acc, "mesh", CHECKS, 30000, corpus_seeds=[[2, 7, 3, 5, 9, 1, 8, 2, 6, 0, 0, 1, 0, 0, 0, 2, 0, 0]])
+        engine.fuzz(acc, "mesh", CHECKS, 150000, corpus_seeds=[[2, 7, 3, 5, 9, 1, 8, 2, 6, 0, 0, 1, 0, 0, 0, 2, 0, 0]])
     META["extra_cov"] = {"exhaustive_subdomain": sub}
